@@ -9,17 +9,39 @@ use std::panic::{catch_unwind, AssertUnwindSafe};
 use std::rc::Rc;
 
 fn check_env(env: &BDDEnv<usize>, handles: &[B]) -> Option<&'static str> {
+    check_env_gen(env, handles, &|v: &usize| *v)
+}
+
+pub fn check_env_gen<S: rsbdd::BDDSymbol>(env: &BDDEnv<S>, handles: &[Rc<BDD<S>>], id: &dyn Fn(&S) -> usize) -> Option<&'static str> {
     let nodes = env.nodes.borrow();
     if !nodes.contains_key(&BDD::True) || !nodes.contains_key(&BDD::False) {
         return Some("leaf-missing");
     }
+    // one table entry per structure: (variable id, address of the true child, address of the false child) determines the node
+    let mut by_shape: std::collections::HashMap<(usize, usize, usize), usize> = std::collections::HashMap::new();
+    let mut leaves = (0usize, 0usize);
     for (k, v) in nodes.iter() {
         if k != v.as_ref() {
             return Some("key-differs-from-value");
         }
+        match v.as_ref() {
+            BDD::Choice(t, x, f) => {
+                let key = (id(x), Rc::as_ptr(t) as usize, Rc::as_ptr(f) as usize);
+                if let Some(p) = by_shape.insert(key, Rc::as_ptr(v) as usize) {
+                    if p != Rc::as_ptr(v) as usize {
+                        return Some("two-table-entries-for-one-structure");
+                    }
+                }
+            }
+            BDD::True => leaves.0 += 1,
+            BDD::False => leaves.1 += 1,
+        }
+    }
+    if leaves != (1, 1) {
+        return Some("leaf-entered-twice");
     }
     // every node reachable from every handle is the table's node for its structure
-    let mut stack: Vec<B> = handles.to_vec();
+    let mut stack: Vec<Rc<BDD<S>>> = handles.to_vec();
     let mut seen = std::collections::HashSet::new();
     while let Some(n) = stack.pop() {
         if !seen.insert(Rc::as_ptr(&n) as usize) {
@@ -33,12 +55,80 @@ fn check_env(env: &BDDEnv<usize>, handles: &[B]) -> Option<&'static str> {
                 }
             }
         }
-        if let BDD::Choice(t, _, f) = n.as_ref() {
+        if let BDD::Choice(t, x, f) = n.as_ref() {
+            // ... and it is THE entry for (id, children)
+            let key = (id(x), Rc::as_ptr(t) as usize, Rc::as_ptr(f) as usize);
+            if by_shape.get(&key) != Some(&(Rc::as_ptr(&n) as usize)) {
+                return Some("reachable-node-not-the-entry-of-its-structure");
+            }
             stack.push(t.clone());
             stack.push(f.clone());
         }
     }
     None
+}
+
+/// formula texts evaluated one after the other in ONE environment (ParsedFormula::new_with_env): every result equals the
+/// evaluation in a fresh environment, earlier results keep their structure, structurally equal results are one pointer,
+/// and the table invariants hold after every step
+pub fn real_histf(texts: &[String]) -> String {
+    use rsbdd::parser::ParsedFormula;
+    use rsbdd::NamedSymbol;
+    rsbdd::verif_hooks::FP_CAP.with(|c| c.set(crate::stext::EVAL_FP_CAP));
+    let r = catch_unwind(AssertUnwindSafe(|| {
+        let env: Rc<BDDEnv<NamedSymbol>> = Rc::new(BDDEnv::new());
+        let mut hs: Vec<Rc<BDD<NamedSymbol>>> = vec![];
+        let mut shown: Vec<String> = vec![];
+        let mut out = String::from("(ok");
+        for (i, t) in texts.iter().enumerate() {
+            let p = match ParsedFormula::new_with_env(Rc::clone(&env), &mut std::io::BufReader::new(t.as_bytes()), None) {
+                Ok(p) => p,
+                Err(_) => return format!("(err {i})"),
+            };
+            let b = p.eval();
+            let fresh = match ParsedFormula::new(&mut std::io::BufReader::new(t.as_bytes()), None) {
+                Ok(q) => q.eval(),
+                Err(_) => return format!("(err {i})"),
+            };
+            let mut sb = String::new();
+            crate::stext::show_named(&b, &mut sb);
+            let mut sf = String::new();
+            crate::stext::show_named(&fresh, &mut sf);
+            if sb != sf || *b != *fresh {
+                return format!("(history-dependent {i} {sb} {sf})");
+            }
+            for (k, h) in hs.iter().enumerate() {
+                let mut sh = String::new();
+                crate::stext::show_named(h, &mut sh);
+                if sh != shown[k] {
+                    return format!("(old-handle-changed {i} {k})");
+                }
+                if shown[k] == sb && !Rc::ptr_eq(h, &b) {
+                    return format!("(env-invariant {i} equal-results-not-shared)");
+                }
+            }
+            hs.push(b);
+            shown.push(sb.clone());
+            if let Some(e) = check_env_gen(&env, &hs, &|v: &NamedSymbol| v.id) {
+                return format!("(env-invariant {i} {e})");
+            }
+            out.push(' ');
+            out.push_str(&sb);
+        }
+        out.push(')');
+        out
+    }));
+    rsbdd::verif_hooks::FP_CAP.with(|c| c.set(usize::MAX));
+    match r {
+        Ok(s) => s,
+        Err(p) => {
+            if p.downcast_ref::<rsbdd::verif_hooks::FpDiverged>().is_some() {
+                "(step-failed (diverge))".into()
+            } else {
+                "(panic)".into()
+            }
+        }
+    }
 }
 
 /// replace (h k) by the literal text of handle k, so that the step can be re-run in a fresh environment
@@ -242,6 +332,23 @@ pub fn main(out: &mut Out, o: &Opts) {
         }
         emit_hist(out, &steps);
     }
+    // formulas sharing one environment, the same structure under several spellings of the same ids
+    let nf = if o.thorough { 10_000 } else { 600 };
+    let pools: [[&str; 3]; 4] = [["p", "q", "x"], ["req", "ack", "busy"], ["x", "p", "q"], ["a", "b", "c"]];
+    let fixed = ["(a & b) | (c & -d) | [a, c, e] = 2", "(p & q) | (r & -s) | [p, r, t] = 2", "a & b", "b & a", "x | y", "lfp z # a | (b & z)", "lfp w # p | (q & w)"];
+    out.emit("histf", &Sx::l(fixed.iter().map(|t| crate::stext::text_sx(t)).collect()).show(), &real_histf(&fixed.iter().map(|t| t.to_string()).collect::<Vec<_>>()));
+    for _ in 0..nf {
+        let len = 2 + rng.below(5) as usize;
+        let mut texts: Vec<String> = vec![];
+        let mut seeds: Vec<(u64, u32)> = vec![];
+        for _ in 0..len {
+            let (s, d) = if !seeds.is_empty() && rng.chance(1, 2) { *rng.pick(&seeds) } else { (rng.next(), 1 + rng.below(3) as u32) };
+            seeds.push((s, d));
+            let pool = rng.pick(&pools);
+            texts.push(crate::stext::rand_formula(&mut Rng::new(s), d, pool));
+        }
+        out.emit("histf", &Sx::l(texts.iter().map(|t| crate::stext::text_sx(t)).collect()).show(), &real_histf(&texts));
+    }
     // direct table calls
     let nc = if o.thorough { 20_000 } else { 2_000 };
     for _ in 0..nc {
@@ -262,6 +369,10 @@ pub fn replay(op: &str, args: &Sx) -> String {
     match (op, args.list()) {
         ("hist", Some(l)) => real_hist(l),
         ("heap", Some(l)) => real_heap(l),
+        ("histf", Some(l)) => match l.iter().map(crate::stext::sx_text).collect::<Option<Vec<String>>>() {
+            Some(ts) => real_histf(&ts),
+            None => "(harness-error decode)".into(),
+        },
         _ => "(harness-error args)".into(),
     }
 }
